@@ -16,6 +16,9 @@ pub struct Carried {
     pub grspeed: Option<u32>,
     pub vrate: Option<i32>,
     pub heading: Option<u32>,
+    /// TC19: GNSS-minus-barometric height difference (ft); TC20-22: GNSS height.
+    pub altitude_delta: Option<i32>,
+    pub altitude_gnss: Option<u32>,
     pub ss: Option<char>,
     pub version: Option<u32>,
     pub ca: Option<u32>,
@@ -52,6 +55,8 @@ pub fn carried(line: &[u8]) -> Option<Carried> {
             c.grspeed = v.grspeed;
             c.vrate = v.vrate;
             c.heading = v.heading;
+            c.altitude_delta = v.altitude_delta;
+            c.altitude_gnss = v.altitude_gnss;
             c.ss = v.surveillance_status;
             c.version = v.adsb_version;
             c.ca = Some(v.capability);
